@@ -171,4 +171,10 @@ func modeAlias(cf *hxlib.CommonFlags, o *hxlib.Out) {
 		}
 		runAlias(o, c)
 	}
+	if cf.Only < 0 {
+		// kept cases, after the generated ones (the witness of
+		// Mpc.C12_rewiden_witness and its 64-bit sibling)
+		runAlias(o, aliasCase{t1: ityp{false, 32}, t2: ityp{true, 33}, v: big.NewInt(4294967295)})
+		runAlias(o, aliasCase{t1: ityp{false, 64}, t2: ityp{true, 65}, v: new(big.Int).SetUint64(1<<64 - 1)})
+	}
 }
